@@ -96,6 +96,19 @@ func (c *c05) keyCheck() {
 			}
 		}
 		if member {
+			// the key generation in force at a record: the last one introduced at or before it
+			for ri := 0; ri <= k; ri++ {
+				wantGen := 0
+				for _, g := range gens {
+					if g <= ri {
+						wantGen = g
+					}
+				}
+				got, err := st.ReadKeyForAclId(c.chain[ri].Id)
+				if err != nil || c.idx(got) != wantGen {
+					c.r.Fail("wrong-key-for-record", "", "after #%d: %s resolves the read key in force at record #%d to generation #%d (err %v), it is #%d", k, a.Name, ri, c.idx(got), err, wantGen)
+				}
+			}
 			if len(keys) != len(gens) {
 				c.r.Fail("member-cannot-derive-key", "generations", "after #%d: %s sees %d key generations, consensus has %d", k, a.Name, len(keys), len(gens))
 			}
@@ -275,6 +288,11 @@ func (c *c05) edit() {
 	}
 	c.nEdits++
 	marker := []byte(fmt.Sprintf("PLAINTEXT-MARKER-%d-by-%s-0123456789", c.nEdits, a.Name))
+	if s.Flip("empty-content", 0.12) {
+		// empty content added as encrypted is content like any other: ciphertext under the named key
+		marker = []byte{}
+		c.r.Probe("empty-encrypted-content")
+	}
 	t.Lock()
 	res, err := t.AddContent(ctxb, objecttree.SignableChangeContent{Data: marker, Key: a.Keys.SignKey, ShouldBeEncrypted: true, Timestamp: int64(946684800 + c.nEdits)})
 	t.Unlock()
@@ -283,7 +301,7 @@ func (c *c05) edit() {
 	}
 	for _, ch := range res.Added {
 		c.plain[ch.Id] = marker
-		if bytes.Contains(ch.RawChange, marker) {
+		if len(marker) > 0 && bytes.Contains(ch.RawChange, marker) {
 			c.r.Fail("plaintext-leaked", "stored", "change %d by %s: the stored/transmitted bytes contain the plaintext", c.nEdits, a.Name)
 		}
 		d := &treechangeproto.RawTreeChange{}
@@ -298,6 +316,9 @@ func (c *c05) edit() {
 		// content keys are derived per tree from the space read key of the named generation
 		key, err := crypto.NewKeyDeriver(fmt.Sprintf(crypto.AnysyncTreePath, c.treeId)).DeriveKey(c.genKey[g])
 		must(err)
+		if len(tc.ChangesData) == 0 {
+			c.r.Fail("encrypted-under-wrong-key", "no-ciphertext", "change %d by %s names key generation #%d but carries no ciphertext", c.nEdits, a.Name, g)
+		}
 		pt, err := key.Decrypt(tc.ChangesData)
 		if err != nil || !bytes.Equal(pt, marker) {
 			c.r.Fail("encrypted-under-wrong-key", "bytes", "change %d by %s does not decrypt to the original under key generation #%d: %v", c.nEdits, a.Name, g, err)
@@ -341,7 +362,7 @@ func (c *c05) readCheck() {
 		} else {
 			// an account must not see plaintext of generations introduced after it lost access
 			for id, pt := range got {
-				if want, ok := c.plain[id]; ok && bytes.Equal(pt, want) && c.changeGen[id] > c.lastHeld[a.Name] {
+				if want, ok := c.plain[id]; ok && len(want) > 0 && bytes.Equal(pt, want) && c.changeGen[id] > c.lastHeld[a.Name] {
 					c.r.Fail("non-member-reads-plaintext", "", "%s (no permission since #%d) decrypts a change of key generation #%d", a.Name, c.lastHeld[a.Name], c.changeGen[id])
 				}
 			}
@@ -364,6 +385,62 @@ func (c *c05) missingKeyCheck() {
 		leaked := raw != nil && bytes.Contains(raw.RawChange, []byte("PLAINTEXT-MARKER-no-key"))
 		c.r.Fail("plaintext-leaked", "missing-key", "building an encrypted change without a key returned %v (plaintext in output: %v)", err, leaked)
 	}
+	_, _, err = cb.Build(objecttree.BuilderContent{TreeHeadIds: []string{c.treeId}, AclHeadId: c.cons.Head().Id, SnapshotBaseId: c.treeId, PrivKey: c.accs[0].Keys.SignKey,
+		Content: nil, Timestamp: 1})
+	if !errors.Is(err, objecttree.ErrMissingEncryptKey) {
+		c.r.Fail("plaintext-leaked", "missing-key-empty", "building an encrypted change with empty content and without a key returned %v", err)
+	}
+}
+
+// faultyRotation: an admin's client builds a rotation with the real builder and then gets the recipient list
+// wrong - one member listed twice, another left out - before signing. Such a record is validly signed; if it is
+// accepted, the member left out keeps its permission without the new key (the derivation oracle sees that).
+func (c *c05) faultyRotation() int {
+	w := c.world
+	s := w.r.Src
+	actor := w.pickActor("faulty-admin")
+	v := w.views[actor.Name]
+	if v.stuck {
+		return -1
+	}
+	w.catchUp(v, len(w.chain)-1)
+	if v.stuck || !v.acl.AclState().Permissions(actor.Pub()).CanManageAccounts() {
+		return -1
+	}
+	if k, err := v.acl.AclState().CurrentReadKey(); err != nil || k == nil {
+		return -1
+	}
+	raw, err := v.acl.RecordBuilder().BuildReadKeyChange(newKeys())
+	if err != nil {
+		return -1
+	}
+	rec := &consensusproto.Record{}
+	must(rec.UnmarshalVT(raw.Payload))
+	data := &aclrecordproto.AclData{}
+	must(data.UnmarshalVT(rec.Data))
+	var rk *aclrecordproto.AclReadKeyChange
+	for _, ct := range data.AclContent {
+		if ct.GetReadKeyChange() != nil {
+			rk = ct.GetReadKeyChange()
+		}
+	}
+	if rk == nil || len(rk.AccountKeys) < 2 {
+		return -1
+	}
+	i := s.Choose("dup-from", len(rk.AccountKeys))
+	j := s.Choose("dup-over", len(rk.AccountKeys)-1)
+	if j >= i {
+		j++
+	}
+	rk.AccountKeys[j] = &aclrecordproto.AclEncryptedReadKey{Identity: append([]byte{}, rk.AccountKeys[i].Identity...), EncryptedReadKey: append([]byte{}, rk.AccountKeys[i].EncryptedReadKey...)}
+	w.r.Fault("byzantine-record")
+	k, err := w.submit(actor, w.space.SignData(actor, data, rec.PrevId), "byz: rotation listing one member twice and leaving one out")
+	w.r.Event("faulty-rotation", "%s: accepted=%v", actor.Name, err == nil)
+	if err != nil {
+		w.r.Probe("faulty-rotation-rejected")
+		return -1
+	}
+	return k
 }
 
 func runC05(r *core.Run) {
@@ -407,6 +484,12 @@ func runC05(r *core.Run) {
 			continue
 		}
 		before := w.pre()
+		if s.Flip("faulty-rotation", 0.08) {
+			if k := c.faultyRotation(); k >= 0 {
+				onAccept(before, k)
+			}
+			continue
+		}
 		if k := w.honestOp(); k >= 0 {
 			onAccept(before, k)
 		}
